@@ -444,6 +444,12 @@ func (e *SymEnv) Eval(x ast.Expr) Aff {
 			if r.IsConst() && l.IsConst() && r.K < 63 {
 				return affK(l.K << uint(r.K))
 			}
+		case token.AND, token.OR, token.XOR, token.SHR:
+			if r.IsConst() && l.IsConst() && isIntegerType(p.Info.TypeOf(v)) {
+				if k, ok := foldBitOp(v.Op.String(), l.K, r.K); ok {
+					return affK(k)
+				}
+			}
 		}
 		ls, rs := l.String(), r.String()
 		switch v.Op {
@@ -782,6 +788,12 @@ func (p *GoProg) execAssign(sp *SymPath, env *SymEnv, s *ast.AssignStmt, at int)
 			case token.ASSIGN, token.DEFINE:
 			default:
 				op := strings.TrimSuffix(s.Tok.String(), "=")
+				if lv := env.Eval(l); lv.IsConst() && v.IsConst() {
+					if k, ok := foldBitOp(op, lv.K, v.K); ok {
+						v = affK(k)
+						break
+					}
+				}
 				ls, rs := env.Eval(l).String(), v.String()
 				if (op == "|" || op == "&" || op == "^") && ls > rs {
 					ls, rs = rs, ls
@@ -1391,4 +1403,25 @@ func (p *GoProg) BodyLoopSegmentPaths(fd *ast.FuncDecl, body *ast.BlockStmt, loo
 		out = append(out, sp)
 	}
 	return out
+}
+
+// foldBitOp folds a bitwise operation on two constants (64-bit two's complement, logical right shift).
+func foldBitOp(op string, a, b int64) (int64, bool) {
+	switch op {
+	case "|":
+		return a | b, true
+	case "&":
+		return a & b, true
+	case "^":
+		return a ^ b, true
+	case "<<":
+		if b >= 0 && b < 64 {
+			return int64(uint64(a) << uint(b)), true
+		}
+	case ">>":
+		if b >= 0 && b < 64 && a >= 0 {
+			return int64(uint64(a) >> uint(b)), true
+		}
+	}
+	return 0, false
 }
